@@ -11,7 +11,7 @@ META = {
                "error patterns: every weight 1..5 (odd weights via the parity identity, weights 2 and 4 via symbolic "
                "column indices into the syndrome table read off the implementation), every burst of <= 24 bits at "
                "every offset"],
-    "outside": ["crc_legacy (numpy arrays cross the C boundary; not encoded)", "the Cython crc (see C15)",
+    "outside": ["the Cython crc (see C15)",
                 "weight-4 at 112 bits is thorough-tier only"],
     "stubs": [],
     "assumptions": ["z3 decides GF(2)-affine equalities over the implementation's bit terms; the GF(2) normal form "
